@@ -773,6 +773,97 @@ pub(crate) mod b {
         println!("BOUNDED-CASES {}", n);
     }
 
+    /// elements of a rendered document outside <style> and <defs>: tag, class string, the numbers of its length
+    /// attributes (for a path the rotation and the two flags of the arc command are left out)
+    fn length_attributes(svg: &str) -> Vec<(String, String, Vec<f64>)> {
+        let mut body = svg.to_string();
+        for (open, close) in [("<style", "</style>"), ("<defs", "</defs>")] {
+            while let Some(i) = body.find(open) {
+                match body[i..].find(close) {
+                    Some(j) => body.replace_range(i..i + j + close.len(), ""),
+                    None => break,
+                }
+            }
+        }
+        let mut out = vec![];
+        let mut rest = body.as_str();
+        while let Some(i) = rest.find('<') {
+            rest = &rest[i + 1..];
+            if rest.starts_with('/') || rest.starts_with('?') || rest.starts_with('!') {
+                continue;
+            }
+            let end = rest.find('>').unwrap_or(rest.len());
+            let inner = &rest[..end];
+            let tag: String = inner.chars().take_while(|c| !c.is_whitespace() && *c != '/').collect();
+            let mut class = String::new();
+            let mut nums = vec![];
+            let mut attrs = &inner[tag.len()..];
+            while let Some(eq) = attrs.find("=\"") {
+                let name = attrs[..eq].trim().to_string();
+                let vstart = eq + 2;
+                let vend = attrs[vstart..].find('"').map(|k| vstart + k).unwrap_or(attrs.len());
+                let value = &attrs[vstart..vend];
+                if name == "class" {
+                    class = value.to_string();
+                } else if ["x", "y", "x1", "y1", "x2", "y2", "cx", "cy", "r", "rx", "ry", "width", "height", "points", "d"].contains(&name.as_str()) {
+                    let mut v: Vec<f64> = value
+                        .split(|c: char| !(c.is_ascii_digit() || c == '.' || c == '-' || c == 'e' || c == '+'))
+                        .filter(|t| !t.is_empty())
+                        .filter_map(|t| t.parse::<f64>().ok())
+                        .collect();
+                    if name == "d" && v.len() == 9 {
+                        v.drain(4..7);
+                    }
+                    nums.extend(v);
+                }
+                attrs = &attrs[(vend + 1).min(attrs.len())..];
+            }
+            out.push((tag, class, nums));
+        }
+        out
+    }
+
+    /// C11 end to end (bounded stand-in): rendering at scale s is the rendering at scale 1 with every length
+    /// multiplied by s - same elements, same order, same classes.  Text inside shapes is left out of the corpus
+    /// (known finding C11.text_bounds_unscaled_width).
+    #[test]
+    fn bounded_render_scales_linearly() {
+        let corpus = [
+            "*---", "---*", "o--", "--o", "O-->", "<--", "*--*", "*--+", "-*-", "*\n|\n", "|\n*\n", " *\n/\n", "^\n|\nv\n", "-->", "<->", "==", "::\n::", "~~",
+            "+--+\n|  |\n+--+\n", "+---+\n|   |\n+---+\n", ".--.\n|  |\n'--'\n", ".--.\n|  |-\n'--'\n", ",--.\n|  |-\n`--'\n", " .-.\n(   )\n `-'\n", "  )\n-'\n", " ,-.\n(\n",
+            "/\\\n\\/\n", "_/‾", "abc def", "é一 x", "┌─┐\n│ │\n└─┘\n", "───▶", "◀──", "a --> b", "+--+  txt\n|  |\n+--+\n", "\\|/\n-+-\n/|\\\n", "  ^\n /\n/\n", "\\\n \\\n  V\n",
+        ];
+        let render = |text: &str, scale: f32| {
+            let st = Settings { scale, ..Settings::default() };
+            crate::to_svg_with_settings(text, &st)
+        };
+        let mut n = 0u64;
+        for text in corpus {
+            let base = length_attributes(&render(text, 1.0));
+            for scale in [0.5f32, 3.0, 8.0, 37.5] {
+                let got = length_attributes(&render(text, scale));
+                let same_shape = got.len() == base.len() && got.iter().zip(base.iter()).all(|(g, b)| g.0 == b.0 && g.1 == b.1 && g.2.len() == b.2.len());
+                let mut worst: Option<(String, f64, f64)> = None;
+                if same_shape {
+                    for (g, b) in got.iter().zip(base.iter()) {
+                        for (x, y) in g.2.iter().zip(b.2.iter()) {
+                            let want = y * scale as f64;
+                            if (x - want).abs() > 1e-3 * want.abs().max(1.0) {
+                                worst = Some((g.0.clone(), *x, want));
+                            }
+                        }
+                    }
+                }
+                if !same_shape || worst.is_some() {
+                    println!("BOUNDED-WITNESS {:?} at scale {}: {:?}; scale 1: {:?}; first mismatch {:?}", text, scale, got, base, worst);
+                    panic!("every length scales, nothing else changes");
+                }
+                n += 1;
+            }
+        }
+        println!("BOUNDED-CASES {}", n);
+    }
+
     /// WITNESS of a known finding (C11): whether a tag next to the right border styles its box depends on the
     /// scale, because `Text::bounds` adds an unscaled width to a scaled anchor.  Fails while the defect is present.
     #[test]
